@@ -42,7 +42,8 @@ EXPLANATION = (
     " (R13) the fixed word a printer emits for a built-in constant singleton (LITERAL_PI, LITERAL_E, LITERAL_INFINITY ..) is a spelling the lexer maps to the token of the `constant ::= TOK_x` production that yields that singleton."
     " (R14) the arm of STMT_out for one kind of statement reads, of the statement node itself, only fields that STMTcreate or the constructor of that kind stores (symbol.name is stored by none)."
     " (R15) no bare early exit of a printer function is decided by a value computed from exppp_linelength (reaching definitions; callees that return a layout value taint the variable they are assigned to): the line length decides layout, not content."
-    " (R16) where TYPE_resolve replaces a reference node by the object a (possibly renaming) look-up found, the spelling of the reference must be kept somewhere, or a name imported with AS cannot be printed as written (two open findings).")
+    " (R16) where TYPE_resolve replaces a reference node by the object a (possibly renaming) look-up found, the spelling of the reference must be kept somewhere, or a name imported with AS cannot be printed as written (two open findings)."
+    " (R11f) a keyword printed for one bit of a `flags` struct does not depend on a sibling bit being clear (same criterion as R11; locals initialised once stand for their initialiser). (R17) the repeat mark of an aggregate initialiser (`X->type = Type_Repeat`) is stored only into an expression created as, or tested to be, an integer literal: the type of an expression is also its kind.")
 from engines import call_args
 
 PLACEHOLDER_DEFAULT = re.compile(r"unknown|Reached default|not handled", re.I)
@@ -1727,6 +1728,11 @@ def r17_repeat_mark_keeps_kind(prog, res):
                     d = base_decl(x)
                     if d is not None and (br != flip) == (c["op"] == "=="):
                         return tuple(sorted(set(ts) | {d}))
+                # TYPEis( X->type ) == integer_
+                if x is not None and y is not None and x["k"] == "Member" and y["k"] == "Ref" and y.get("n") == "integer_":
+                    ap = (access_path(x) or "").split(".")
+                    if ap[1:] == ["type", "u", "type", "body", "type"] and (br != flip) == (c["op"] == "=="):
+                        return tuple(sorted(set(ts) | {ap[0]}))
             return ts
         try:
             pathstate.walk(f, (), on_node, on_edge=on_edge)
